@@ -34,6 +34,10 @@ pub struct Case14 {
     /// Markdown: a `detached: true` test case (no result of its own) stands before the others
     #[serde(default)]
     pub detached_first: bool,
+    /// `--shell <bash>` is given on the command line as well (another global flag next to
+    /// --timeout-seconds)
+    #[serde(default)]
+    pub shell_flag: bool,
 }
 
 /// every test case has its own command text (`: tN` in front) so that the report can be
@@ -96,6 +100,7 @@ fn case_strategy() -> BoxedStrategy<Case14> {
                 deadline_wait: None,
                 cmd_style,
                 detached_first: !cram && raw[0].1 % 3 == 0,
+                shell_flag: raw[0].1 % 5 < 2,
             };
             // deadline-crossing wait scenario (Markdown, finite document limit); the waiting test
             // case may be the last one of the document
@@ -216,6 +221,10 @@ fn check_case(c: &Case14) -> V {
         args.push("--timeout-seconds".into());
         args.push(format!("{}", l / 1000));
     }
+    if c.shell_flag {
+        args.push("--shell".into());
+        args.push("/bin/bash".into());
+    }
     let path = dir.path().join(if c.cram { "doc.t" } else { "doc.md" });
     std::fs::write(&path, &doc).ok();
     args.push(path.to_string_lossy().to_string());
@@ -237,6 +246,7 @@ fn check_case(c: &Case14) -> V {
         .label_if(c.limit_via_cli, "limit_via_command_line")
         .label_if(c.deadline_wait.is_some(), "deadline_passes_during_wait")
         .label_if(c.detached_first, "detached_test_case_first")
+        .label_if(c.shell_flag && c.limit_via_cli, "shell_and_timeout_flags_together")
         .label_if(abort_at.is_some() && matches!(c.cmd_style, 1 | 2), "timed_out_command_traps_sigterm")
         .label_if(abort_at.is_some() && matches!(c.cmd_style, 3 | 4), "timed_out_command_has_child_process")
         .label_if(
